@@ -15,7 +15,7 @@ func TestC03(t *testing.T) {
 	rec := hx.R("C03")
 	runCrashSweep(t, crashSweepCfg{
 		prop: "C03", rec: rec,
-		opts: histOpts{minOps: 3, maxOps: envInt("VERIF_MAXOPS", 7), varBias: 75, checkpoints: true, multiPart: true, sameInterval: 70},
+		opts: histOpts{minOps: 3, maxOps: envInt("VERIF_MAXOPS", 7), varBias: 75, checkpoints: true, multiPart: true, sameInterval: 70, destroys: true},
 		oracle: func(cr *crashRun, k int, a, b *restartResult) error {
 			return checkRestartOK(cr, k, a, rec)
 		},
